@@ -24,8 +24,9 @@ class C02(BTreeSpec):
         for sub in ("Model", "Gen", "Proofs")
         for f in glob.glob(os.path.join(core.LEAN, "TlxVerif", sub, "C01*.lean"))))
     assumptions = [
-        "node identity is not modelled: the model counts allocations and frees per node type; that the *right* node "
-        "is freed is observed by the counting allocator (unknown/double free), ASan and the leaf-chain walk only",
+        "node identity is not modelled: the model counts allocations and frees per node type and per allocator "
+        "instance; that the *right* node is freed is observed by the allocator registry (unknown/double free, block "
+        "returned through an instance other than the one that produced it), ASan and the leaf-chain walk only",
         "LeafNode/InnerNode construct all slotdata[]/slotkey[] objects with the node and destroy them with it, so "
         "element lifetime reduces to node lifetime; the harness checks after every call that the live Tracked objects "
         "are exactly the slot arrays of the live nodes",
